@@ -216,7 +216,7 @@ impl TypeCollector {
         // several places, and two `export async function onX` would not compile
         let mut seen_names = std::collections::HashSet::new();
 
-        events
+        let mut contexts: Vec<EventContext> = events
             .iter()
             .filter(|event| seen_names.insert(event.event_name.clone()))
             .map(|event| {
@@ -224,7 +224,23 @@ impl TypeCollector {
                     type_resolver.borrow_mut().parse_type_structure(rust_type)
                 })
             })
-            .collect()
+            .collect();
+
+        // Distinct event names can derive the same function name ("a-b", "a_b", "a:b" all
+        // give onAB): keep the listener functions unique by numbering the later ones
+        let mut used_function_names = std::collections::HashSet::new();
+        for context in &mut contexts {
+            let base = context.ts_function_name.clone();
+            let mut candidate = base.clone();
+            let mut counter = 2;
+            while !used_function_names.insert(candidate.clone()) {
+                candidate = format!("{}{}", base, counter);
+                counter += 1;
+            }
+            context.ts_function_name = candidate;
+        }
+
+        contexts
     }
 
     /// Create StructContext instances from StructInfo using the provided visitor
